@@ -41,6 +41,43 @@ def run(chk, facts_dir, tier):
         else:
             chk.fail("R18.1", RAB + "fill", "valid-beyond-flushed", "the read-ahead buffer marks bytes as valid without bounding them by the flushed offset (%s): bytes beyond it "
                      "are not final and are later served stale" % show(term)[:80], fb, s["line"])
+    # R18.4: nothing is carried over from a previous fill beyond what was valid then
+    chk.rule("R18.4", "NO CARRY-OVER: the bytes ReadAheadBuf::fill counts as read are read in that call: the counter that positions the positional reads into the buffer starts at 0, "
+                      "or at the unmodified old valid_len (bytes that were below the flushed offset when they were read); anything else (e.g. valid_len rounded up to a page) keeps bytes "
+                      "that were read while they were still beyond the flushed offset")
+    ras = [(bi, t) for bi, t in fb.calls() if (fb.callee_decl(t) or "").endswith("FileExt::read_at")]
+    if not ras:
+        raise Inconclusive("ReadAheadBuf::fill: no positional read found")
+    n4 = 0
+    for bi, t in ras:
+        # the buffer slice is `self.buf[counter..]`: find the RangeFrom { start: counter } feeding the first argument
+        ctr = None
+        for i, j, st in fb.assigns():
+            if st["rv"]["k"] == "agg" and st["rv"]["ak"].endswith("ops::RangeFrom") and fb.dominates(i, bi):
+                p = op_place(st["rv"]["ops"][0])
+                if p is not None and not p["p"]:
+                    ctr = _root(fb, p["l"])
+        if ctr is None:
+            chk.inconc("ReadAheadBuf::fill: the buffer position of the positional read at L%s is not a `buf[counter..]` slice" % t.get("line"))
+            continue
+        loop = fb.reach_from([t["target"]]) if t.get("target") is not None else set()
+        for (di, dj, lhs, drv) in fb.defs.get(ctr, []):
+            if lhs["p"]:
+                continue
+            if di in loop and fb.dominates(bi, di):
+                continue          # the in-loop increment by the bytes just read
+            n4 += 1
+            term = strip(fev._rvalue(drv, (di, dj), 0))
+            if term[0] == "const" and term[2] == 0:
+                chk.ok("R18.4", "read counter starts at 0", fb.where(fb.stmts(di)[dj]["line"] if dj != "T" else None))
+            elif term[0] == "field" and term[2] == "valid_len":
+                chk.ok("R18.4", "read counter starts at the old valid_len", fb.where())
+            elif term[0] == "phi" and all(strip(a)[0] == "const" and strip(a)[2] == 0 or (strip(a)[0] == "field" and strip(a)[2] == "valid_len") for a in term[1]):
+                chk.ok("R18.4", "read counter starts at 0 or at the old valid_len", fb.where())
+            else:
+                chk.fail("R18.4", RAB + "fill", "carry-over", "the buffer keeps %s bytes from an earlier fill without reading them again: bytes between the old flushed offset and that "
+                         "point were read while the writer could still change them, and are now served as flushed data" % show(term)[:70], fb, fb.stmts(di)[dj]["line"] if dj != "T" else None)
+    chk.floor("R18.4", n4, 1)
     # the hit test in read() uses valid_len
     rb = prog.body(RAB + "read")
     chk.analysed(rb.path)
